@@ -8,7 +8,9 @@ does not re-sample); `stepPinned` is the behaviour of the pinned tree, kept for 
 
 State components (one per thing a call could disturb):
 
-* `wtrain`, `strain`   `.training` of the wrapper / of the inner (seed) modules
+* `wtrain`, `strain`, `bntrain`, `droptrain`   `.training` of the wrapper / of the sampling modules
+                       (combiners, quantizers) / of the BatchNorm / of the Dropout sub-modules — a search
+                       may run with mixed modes (BatchNorm frozen by `.eval()` inside a `train()` wrapper)
 * `theta`              the sampled selection coefficients `theta_alpha`, abstractly: were they hardened
                        (one-hot) and which RNG draw produced their Gumbel noise
 * `rng`                position in the global torch RNG stream
@@ -54,9 +56,15 @@ either alone or under the name `'a'` -/
 def Spec.fnA : Spec → Nat
   | .single i => i | .dict i => i
 
+/-- the cost model `get_cost('b')` evaluates: the dictionary in slot `i` names the *other* model `'b'` -/
+def Spec.fnB : Spec → Nat
+  | .single i => i | .dict i => 1 - i
+
 structure State where
   wtrain : Bool
   strain : Bool
+  bntrain : Bool
+  droptrain : Bool
   theta : Theta
   rng : Nat
   arch : Nat
@@ -67,7 +75,7 @@ structure State where
   deriving DecidableEq, Repr, Inhabited
 
 inductive Op where
-  | exportNet | exportNoBn | summary | cost | getCost | setSpec (s : Spec) | forward
+  | exportNet | exportNoBn | summary | cost | getCost | getCostB | setSpec (s : Spec) | forward
   deriving DecidableEq, Repr, Inhabited
 
 /-- what a call returns, abstractly: everything the returned value can depend on -/
@@ -85,12 +93,13 @@ inductive Out where
   | err
   /-- network outputs: sampled coefficients, parameters, buffers, mode, and the RNG draw used by
   dropout / Gumbel noise if any -/
-  | outputs (theta : Theta) (arch pers : Nat) (strain : Bool) (draw : Option Nat)
+  | outputs (theta : Theta) (arch pers : Nat) (strain bntrain droptrain : Bool) (draw : Option Nat)
   | unit
   deriving DecidableEq, Repr, Inhabited
 
 def Op.isObserver : Op → Bool
   | .exportNet => true | .exportNoBn => true | .summary => true | .cost => true | .getCost => true
+  | .getCostB => true
   | .setSpec _ => false | .forward => false
 
 /-- the coefficients a forward samples in mode `training` at RNG position `rng` -/
@@ -127,9 +136,11 @@ def costOk (s : Spec) (named : Bool) : Bool :=
   match s, named with
   | .single _, false => true | .dict _, true => true | _, _ => false
 
-def costStep (c : Cfg) (s : State) (named : Bool) : State × Out :=
+/-- a cost evaluation: a function of the cost model selected, the sampled coefficients and the
+parameters — *not* of which metrics were evaluated before -/
+def costStep (c : Cfg) (s : State) (named : Bool) (fn : Nat) : State × Out :=
   if costOk s.spec named then
-    ({ s with attrs := s.attrs || costAddsAttrs c }, .costv s.spec.fnA s.theta s.arch)
+    ({ s with attrs := s.attrs || costAddsAttrs c }, .costv fn s.theta s.arch)
   else (s, .err)
 
 /-- the part of the buffers an exported network depends on -/
@@ -144,18 +155,19 @@ def exportStep (c : Cfg) (s : State) : State × Out :=
 
 def forwardStep (c : Cfg) (s : State) : State × Out :=
   let th := sample c s.strain s.rng s.theta
-  let draws := sampleDraws c s.strain || (c.dropout && s.strain)
+  let draws := sampleDraws c s.strain || (c.dropout && s.droptrain)
   let s' := { s with theta := th, rng := if draws then s.rng + 1 else s.rng,
-                     pers := if c.bnTrain && s.strain then s.pers + 1 else s.pers }
-  (s', .outputs th s.arch s.pers s.strain (if draws then some s.rng else none))
+                     pers := if c.bnTrain && s.bntrain then s.pers + 1 else s.pers }
+  (s', .outputs th s.arch s.pers s.strain s.bntrain s.droptrain (if draws then some s.rng else none))
 
 /-- the code as it is now -/
 def step (c : Cfg) (s : State) : Op → State × Out
   | .exportNet => exportStep c s
   | .exportNoBn => exportStep c s       -- `add_bn=False` only looks for an attribute no layer has
   | .summary => (s, .summ s.arch)
-  | .cost => costStep c s false
-  | .getCost => costStep c s true
+  | .cost => costStep c s false s.spec.fnA
+  | .getCost => costStep c s true s.spec.fnA
+  | .getCostB => costStep c s true s.spec.fnB
   | .setSpec k => ({ s with spec := k }, .unit)
   | .forward => forwardStep c s
 
@@ -170,7 +182,7 @@ def trace (c : Cfg) : State → List Op → List Out
 
 def exportStepPinned (c : Cfg) (s : State) : State × Out :=
   -- `self.seed.eval()` is never undone and the shape-propagation forward leaves its eval-mode sample
-  ({ s with strain := false, theta := sample c false s.rng s.theta,
+  ({ s with strain := false, bntrain := false, droptrain := false, theta := sample c false s.rng s.theta,
             rng := if exportDraws c then s.rng + 1 else s.rng }, .net s.arch (exportedStats c s))
 
 def summaryStepPinned (c : Cfg) (s : State) : State × Out :=
@@ -194,6 +206,8 @@ the coefficients carry noise, not by which draw produced it (the RNG is not an o
 structure ObsState where
   wtrain : Bool
   strain : Bool
+  bntrain : Bool
+  droptrain : Bool
   hardened : Bool
   noisy : Bool
   arch : Nat
@@ -203,15 +217,16 @@ structure ObsState where
   deriving DecidableEq, Repr
 
 def obsState (s : State) : ObsState :=
-  ⟨s.wtrain, s.strain, s.theta.hardened, s.theta.noise.isSome, s.arch, s.pers, s.spec, s.flags⟩
+  ⟨s.wtrain, s.strain, s.bntrain, s.droptrain, s.theta.hardened, s.theta.noise.isSome, s.arch, s.pers, s.spec, s.flags⟩
 
 /-- the same, keeping the identity of the noise (exact sampled coefficients) -/
-def obsStateExact (s : State) : Bool × Bool × Theta × Nat × Nat × Spec × Nat :=
-  (s.wtrain, s.strain, s.theta, s.arch, s.pers, s.spec, s.flags)
+def obsStateExact (s : State) : Bool × Bool × Bool × Bool × Theta × Nat × Nat × Spec × Nat :=
+  (s.wtrain, s.strain, s.bntrain, s.droptrain, s.theta, s.arch, s.pers, s.spec, s.flags)
 
 /-- components the correspondence leg watches -/
 def changed (a b : State) : List String :=
-  (if a.wtrain != b.wtrain || a.strain != b.strain then ["modes"] else []) ++
+  (if a.wtrain != b.wtrain || a.strain != b.strain || a.bntrain != b.bntrain || a.droptrain != b.droptrain
+   then ["modes"] else []) ++
   (if a.theta != b.theta then ["theta"] else []) ++
   (if a.rng != b.rng then ["rng"] else []) ++
   (if a.pers != b.pers || a.arch != b.arch then ["state"] else []) ++
